@@ -50,5 +50,53 @@ theorem limited_run_is_prefix {σ : Type} (step : σ → σ) (stop : σ → Bool
     runUntil step (fun s => stop s || decide (it s ≥ k)) fuel s = runUntil step stop (min fuel k) s := by
   have := prefix_of_unlimited step stop it hstep k fuel s (by omega)
   simpa [h0] using this
+/-
+Deadline variant.  `q s`: the deadline has expired when the loop head of state `s` is reached; `r s`: it expires
+DURING the step started from `s` (inside the Newton loop of the exact controller).  In that case the step is
+interrupted: the loop performs `step'` instead of `step`.  Contracts used as hypotheses:
+  hsol : an interrupted step leaves the solution part of the state untouched (StepSolverError => rejected trial,
+         iterate unchanged: C07 / C15 contracts);
+  hq   : after an interrupted step the deadline has expired at the next head (the clock is monotone).
+Conclusion: the solution returned by the deadline-limited run is the solution the UNLIMITED run holds after some
+number j <= fuel of its own steps - never a partially computed or rejected trial point.
+-/
+def runD {σ : Type} (step step' : σ → σ) (stop q r : σ → Bool) : Nat → σ → σ
+  | 0, s => s
+  | n + 1, s => if stop s || q s then s else if r s then runD step step' stop q r n (step' s)
+                else runD step step' stop q r n (step s)
+
+theorem runD_stops_at_expired_head {σ : Type} (step step' : σ → σ) (stop q r : σ → Bool) (n : Nat) (t : σ)
+    (h : q t = true) : runD step step' stop q r n t = t := by
+  cases n with
+  | zero => simp [runD]
+  | succ n => simp [runD, h]
+
+theorem deadline_run_returns_a_state_of_the_unlimited_run {σ α : Type} (sol : σ → α)
+    (step step' : σ → σ) (stop q r : σ → Bool)
+    (hsol : ∀ s, sol (step' s) = sol s) (hq : ∀ s, r s = true → q (step' s) = true) :
+    ∀ (fuel : Nat) (s : σ), ∃ j, j ≤ fuel ∧
+      sol (runD step step' stop q r fuel s) = sol (runUntil step stop j s) := by
+  intro fuel
+  induction fuel with
+  | zero => intro s; exact ⟨0, by omega, by simp [runD, runUntil]⟩
+  | succ n ih =>
+    intro s
+    by_cases h1 : (stop s || q s) = true
+    · exact ⟨0, by omega, by simp [runD, runUntil, h1]⟩
+    · have hs : stop s = false := by
+        cases hh : stop s <;> simp_all
+      have hq0 : q s = false := by
+        cases hh : q s <;> simp_all
+      by_cases h2 : r s = true
+      · have := runD_stops_at_expired_head step step' stop q r n (step' s) (hq s h2)
+        refine ⟨0, by omega, ?_⟩
+        simp [runD, runUntil, hs, hq0, h2, this, hsol]
+      · have h2' : r s = false := by
+          cases hh : r s <;> simp_all
+        obtain ⟨j, hj, he⟩ := ih (step s)
+        refine ⟨j + 1, by omega, ?_⟩
+        simp [runD, runUntil, hs, hq0, h2', he]
+
 #print axioms prefix_of_unlimited
+#print axioms deadline_run_returns_a_state_of_the_unlimited_run
 #print axioms limited_run_is_prefix
